@@ -56,26 +56,30 @@ struct TFut {
 }
 impl Future for TFut {
     type Output = Out;
+    // The monitor's own atomics are Relaxed on purpose: a SeqCst store at the
+    // end of one poll read by a SeqCst RMW at the start of the next would order
+    // the two polls and hide a missing happens-before edge of the task
+    // implementation from Miri/TSan (the plain field below is the detector).
     fn poll(mut self: Pin<&mut Self>, cx: &mut Context<'_>) -> Poll<Out> {
-        let st = self.st.clone();
-        if st.in_poll.swap(true, SeqCst) {
-            st.overlap.fetch_add(1, SeqCst);
-        }
-        if st.completed.load(SeqCst) || st.fut_dropped.load(SeqCst) > 0 {
-            st.poll_after_done.fetch_add(1, SeqCst);
-        }
-        st.last_poll_begin.store(rec::stamp(), SeqCst);
         self.plain += 1;
-        let n = st.polls.fetch_add(1, SeqCst) + 1;
+        let st = self.st.clone();
+        if st.in_poll.swap(true, Relaxed) {
+            st.overlap.fetch_add(1, Relaxed);
+        }
+        if st.completed.load(Relaxed) || st.fut_dropped.load(Relaxed) > 0 {
+            st.poll_after_done.fetch_add(1, Relaxed);
+        }
+        st.last_poll_begin.store(rec::stamp(), Relaxed);
+        let n = st.polls.fetch_add(1, Relaxed) + 1;
         st.seen_published.fetch_max(st.published.load(Relaxed), Relaxed);
         *st.waker_slot.lock().unwrap() = Some(cx.waker().clone());
         let r = if n >= self.polls_to_complete {
-            st.completed.store(true, SeqCst);
+            st.completed.store(true, Relaxed);
             Poll::Ready(Out(st.clone()))
         } else {
             Poll::Pending
         };
-        st.in_poll.store(false, SeqCst);
+        st.in_poll.store(false, Relaxed);
         r
     }
 }
@@ -500,7 +504,39 @@ fn conc_case(seed: u64) -> (Vec<(String, String)>, u64, u64) {
     }
     let stop = Arc::new(AtomicBool::new(false));
     let tags: Vec<u64> = tasks.iter().map(|t| t.1).collect();
-    // Runner thread.
+    // Runner threads: with two of them successive polls of one task alternate
+    // between threads (the hand-over of a task from one polling thread to
+    // another is what the Acquire load at the beginning of `run` orders).
+    let nrunners = if rng.chance(1, 2) { 2 } else { 1 };
+    let mut extra_runners = Vec::new();
+    for _ in 1..nrunners {
+        let stop = stop.clone();
+        let tags = tags.clone();
+        extra_runners.push(std::thread::spawn(move || {
+            let mut runs = 0u64;
+            let mut idle = 0u64;
+            loop {
+                let mut any = false;
+                for t in tags.iter().rev() {
+                    if let Some(r) = pop_runnable(*t) {
+                        r.run();
+                        runs += 1;
+                        any = true;
+                    }
+                }
+                if !any {
+                    if stop.load(SeqCst) {
+                        idle += 1;
+                        if idle > 2 {
+                            break;
+                        }
+                    }
+                    std::thread::yield_now();
+                }
+            }
+            runs
+        }));
+    }
     let runner = {
         let stop = stop.clone();
         let tags = tags.clone();
@@ -583,7 +619,10 @@ fn conc_case(seed: u64) -> (Vec<(String, String)>, u64, u64) {
         wake_calls.extend(h.join().unwrap());
     }
     stop.store(true, SeqCst);
-    let runs = runner.join().unwrap();
+    let mut runs = runner.join().unwrap();
+    for h in extra_runners {
+        runs += h.join().unwrap();
+    }
     // Quiescence: oracle.
     let mut viol: Vec<(String, String)> = Vec::new();
     for (ti, t) in tasks.iter().enumerate() {
